@@ -61,21 +61,12 @@ theorem aesInv_spec :
     aesInv 0 = 0 ∧ ∀ x, x < 256 → aesInv x < 256 ∧ (x ≠ 0 → aesMul x (aesInv x) = 1 ∧ aesMul (aesInv x) x = 1) := by
   decide +kernel
 
-/-- `aesMul` is multiplication modulo 0x11B: it is commutative with unit 1 on bytes, `x · 2` is the
-    shift-and-reduce step, and it is additive (XOR-linear) in the second argument — checked on the
-    generators `2^k` (these facts pin the function down on bytes) -/
+/-- sanity of `aesMul` (a test of the transcription, labelled as such): 1 is a unit on bytes, `x · 2` is the
+    shift-and-reduce step modulo 0x11B, and `x · 2^(k+1) = (x · 2^k) · 2` -/
 theorem aesMul_sanity :
     (∀ x, x < 256 → aesMul x 1 = x ∧ aesMul 1 x = x
         ∧ aesMul x 2 = (if 2 * x ≥ 256 then (2 * x) ^^^ 0x11B else 2 * x))
     ∧ (∀ x, x < 256 → ∀ k, k < 7 → aesMul x (2 ^ (k + 1)) = aesMul (aesMul x (2 ^ k)) 2) := by
-  decide +kernel
-
-theorem aesMul_comm : ∀ x, x < 256 → ∀ y, y < 256 → aesMul x y = aesMul y x := by
-  decide +kernel
-
-theorem aesMul_xor_bits :
-    ∀ x, x < 256 → ∀ y, y < 256 →
-      aesMul x y = (List.range 8).foldl (fun r k => r ^^^ (if bit y k = 1 then aesMul x (2 ^ k) else 0)) 0 := by
   decide +kernel
 
 /-! ### GFNI S-box -/
@@ -164,18 +155,27 @@ theorem higher_mask : psllq4 amd64_LOWER_MASK = amd64_LOWER_MASK.map (· * 16) :
 /-- LOWER_MASK is the 4-bit reversal table -/
 theorem lower_mask : amd64_LOWER_MASK = (List.range 16).map (reflect 4) := by decide +kernel
 
-/-- the `reverseBits` macro reverses the bits of both bytes of every 16-bit word -/
-theorem reverseBits_word :
-    ∀ lo, lo < 256 → ∀ hi, hi < 256 →
-      reverseBitsWord 0x0f amd64_LOWER_MASK lo hi = (reverse8 lo, reverse8 hi) := by
-  decide +kernel
-
-/-- the two nibble look-ups alone -/
+/-- the two nibble look-ups: `Lower[b >> 4] ^ Higher[b & 0x0f]` is `b` with its 8 bits reversed -/
 theorem reverseBits_byte :
     ∀ b, b < 256 →
-      pshufbByte amd64_LOWER_MASK ((b >>> 4) &&& 0x0f) ^^^ pshufbByte (psllq4 amd64_LOWER_MASK) (b &&& 0x0f)
+      pshufbByte amd64_LOWER_MASK (b >>> 4) ^^^ pshufbByte (psllq4 amd64_LOWER_MASK) (b &&& 0x0f)
         = reverse8 b := by
   decide +kernel
+
+/-- VPSRLW $4 followed by the AND with 0x0f leaves, in each byte of a 16-bit word, the high nibble of that
+    byte (the four bits that crossed over from the high byte are masked away) -/
+theorem srlw4_and (lo hi : Nat) (hlo : lo < 256) (hhi : hi < 256) :
+    (((lo + 256 * hi) >>> 4) % 256) &&& 0x0f = lo >>> 4 ∧ (((lo + 256 * hi) >>> 4) / 256) &&& 0x0f = hi >>> 4 := by
+  have e : ∀ x, x &&& 0x0f = x % 16 := fun x => Nat.and_two_pow_sub_one_eq_mod x 4
+  simp only [e, Nat.shiftRight_eq_div_pow]
+  omega
+
+/-- the `reverseBits` macro reverses the bits of both bytes of every 16-bit word -/
+theorem reverseBits_word (lo hi : Nat) (hlo : lo < 256) (hhi : hi < 256) :
+    reverseBitsWord 0x0f amd64_LOWER_MASK lo hi = (reverse8 lo, reverse8 hi) := by
+  obtain ⟨h1, h2⟩ := srlw4_and lo hi hlo hhi
+  simp only [reverseBitsWord]
+  rw [h1, h2, reverseBits_byte lo hlo, reverseBits_byte hi hhi]
 
 /-- `reverse8` is what its name says: bit `i` of the result is bit `7 − i` of the argument, and it is an involution -/
 theorem reverse8_spec :
@@ -214,7 +214,7 @@ theorem counter_j0_suffix :
 
 /-- after `rev32` dword 3 of a lane is the big-endian 32-bit number of bytes 12..15 of the block: the GCM counter -/
 theorem counter_lane (b0 b1 b2 b3 b4 b5 b6 b7 b8 b9 b10 b11 b12 b13 b14 b15 : Nat) :
-    (wordsLE 4 (pshufb amd64_Shuffle [b0, b1, b2, b3, b4, b5, b6, b7, b8, b9, b10, b11, b12, b13, b14, b15])).getD 3 0
+    le ((pshufb amd64_Shuffle [b0, b1, b2, b3, b4, b5, b6, b7, b8, b9, b10, b11, b12, b13, b14, b15]).drop 12)
       = be [b12, b13, b14, b15] := rfl
 
 end SMGo.Proofs.AsmData
